@@ -176,8 +176,11 @@ func (h *tracerHandler) Handle(ctx *ptracer.Context) ptracer.TraceAction {
 	case "unlinkat":
 		action = h.checkWriteAt(ctx, int(int32(ctx.Arg0())), ctx.Arg1())
 
-	case "mkdirat", "mknodat", "symlinkat", "fchmodat", "fchmodat2":
+	case "mkdirat", "mknodat", "fchmodat", "fchmodat2":
 		action = h.checkWriteAt(ctx, int(int32(ctx.Arg0())), ctx.Arg1())
+	case "symlinkat":
+		// symlinkat(target, newdirfd, linkpath): the link is what gets created
+		action = h.checkWriteAt(ctx, int(int32(ctx.Arg1())), ctx.Arg2())
 	case "linkat":
 		action = combineTraceActions(
 			h.checkWriteAt(ctx, int(int32(ctx.Arg0())), ctx.Arg1()),
